@@ -51,6 +51,48 @@ func okNilErrCtxMenu(i, k int) []answer {
 func okNilErrMenu(i, k int) []answer {
 	return []answer{{val: okVal(i)}, {err: itemErr(i, k)}, {val: nil}}
 }
+
+// ctxishErr: errors of item i, attempt k that MATCH a context error under errors.Is although the
+// batch's own context is alive — an inner per-item timeout wrapped with %w, an errors.Join with
+// context.Canceled, a custom type whose Is method answers for DeadlineExceeded (as net's timeout
+// error does).  To the library they are item errors like any other.
+type isTimeoutErr struct{ tag string }
+
+func (e *isTimeoutErr) Error() string        { return e.tag }
+func (e *isTimeoutErr) Is(target error) bool { return target == context.DeadlineExceeded }
+
+var ctxishErrTable = func() [][]error {
+	var t [][]error
+	for i := 0; i < 12; i++ {
+		var row []error
+		for k := 0; k < 4; k++ {
+			tag := fmt.Sprintf("item%d-attempt%d", i, k)
+			switch (i + k) % 3 {
+			case 0:
+				row = append(row, fmt.Errorf("%s: inner timeout: %w", tag, context.DeadlineExceeded))
+			case 1:
+				row = append(row, errors.Join(errors.New(tag+": gave up"), context.Canceled))
+			default:
+				row = append(row, &isTimeoutErr{tag: tag + ": i/o timeout"})
+			}
+		}
+		t = append(t, row)
+	}
+	return t
+}()
+
+func okOrCtxishErrMenu(i, k int) []answer {
+	return []answer{{val: okVal(i)}, {err: ctxishErrTable[i%12][k%4]}}
+}
+func failAtCtxishMenu(f int) func(i, k int) []answer {
+	return func(i, k int) []answer {
+		if i == f {
+			return []answer{{err: ctxishErrTable[i%12][k%4]}}
+		}
+		return []answer{{val: okVal(i)}}
+	}
+}
+
 func failFirstMenu(i, k int) []answer {
 	if k == 0 {
 		return []answer{{err: itemErr(i, k)}}
@@ -70,6 +112,22 @@ func genC06(tier string) []Scenario {
 		}
 		sc.budget = 1
 		out = append(out, sc.scenario())
+	}
+	// the caller re-uses ONE slice object for its items, refilled in place before every run ([]any
+	// and []Result): each run processes the items that are in the slice NOW
+	for _, shape := range []int{shAny, shResults} {
+		for _, c := range []int{0, 2} {
+			menu := okOrErrMenu
+			if c > 0 {
+				menu = okMenu // (pooled: the schedules are the branching)
+			}
+			add(batchScn{name: fmt.Sprintf("positional-same-slice-refilled %s n=2 c=%d runs=3", shapeNames[shape], c), n: 2, c: c, shape: shape, sameSlice: true, yield: c > 0, execMenu: menu, bound: 0, runs: 3})
+			add(batchScn{name: fmt.Sprintf("positional-same-slice-refilled %s items=2,3,2 c=%d", shapeNames[shape], c), n: 2, nByRun: []int{2, 3, 2}, c: c, shape: shape, sameSlice: true, yield: c > 0, execMenu: okMenu, bound: 0, runs: 3})
+		}
+	}
+	// item errors that match a context error (the batch's context is alive): slot i holds that error
+	for _, c := range []int{0, 1, 2} {
+		add(batchScn{name: fmt.Sprintf("positional-ctx-matching-item-errors n=2 c=%d", c), n: 2, c: c, shape: shResults, yield: c > 0, execMenu: okOrCtxishErrMenu, bound: 0})
 	}
 	maxN, maxC := 3, 2
 	if th {
@@ -214,6 +272,27 @@ func genC07(tier string) []Scenario {
 		}
 	}
 	sizeSweep(&out, "per-item", nil)
+	// failed attempts whose error matches a context error (the batch's context is alive): full
+	// budget, fallback, slot — as for any other error
+	for _, c := range []int{0, 2} {
+		for _, fb := range []bool{false, true} {
+			sc := batchScn{name: fmt.Sprintf("per-item ctx-matching-errors n=2 c=%d budget=3 fallback=%v", c, fb), n: 2, c: c, budget: 3, fb: fb,
+				shape: shResults, yield: c > 0, execMenu: okOrCtxishErrMenu, fbMenu: fbOkOrErr, postMenu: postX, bound: 0, chkPerItem: true}
+			out = append(out, sc.scenario())
+		}
+	}
+	// one slice object re-used for the items of every run
+	for _, shape := range []int{shAny, shResults} {
+		for _, c := range []int{0, 2} {
+			menu := okOrErrMenu
+			if c > 0 {
+				menu = failFirstMenu
+			}
+			sc := batchScn{name: fmt.Sprintf("per-item same-slice-refilled %s n=2 c=%d budget=2 runs=2", shapeNames[shape], c), n: 2, c: c, budget: 2, fb: true, sameSlice: true, runs: 2,
+				shape: shape, yield: c > 0, execMenu: menu, fbMenu: fbOkOrErr, postMenu: postX, bound: 0, chkPerItem: true, chkPositional: true}
+			out = append(out, sc.scenario())
+		}
+	}
 	// budget and concurrency re-set between three runs of one node: every run gets the budget in force
 	for _, cs := range [][]int{{2, 0, 2}, {0, 2, 0}} {
 		sc := batchScn{name: fmt.Sprintf("per-item concurrency %v and budgets 1,3,3 over three runs n=2", cs), n: 2, c: cs[0], cByRun: cs, budget: 1, budgetByRun: []int{1, 3, 3}, runs: 3, fb: true,
@@ -527,6 +606,13 @@ func genC09(tier string) []Scenario {
 		out = append(out, sc.scenario())
 	}
 	sizeSweep(&out, "stop", func(sc *batchScn) { sc.postMenu = postX })
+	// the failing item's error matches a context error (the batch's context is alive): it is a
+	// failure like any other and stops the batch
+	for _, c := range []int{0, 1, 2} {
+		for f := 0; f < 2; f++ {
+			add(batchScn{name: fmt.Sprintf("stop ctx-matching-error n=3 c=%d fail=%d", c, f), n: 3, c: c, stop: true, budget: 1, yield: c > 0, execMenu: failAtCtxishMenu(f), bound: 1})
+		}
+	}
 	// concurrency and mode re-set between runs of one node: 3 workers continue, then 1 worker stop, …
 	for _, cs := range [][]int{{3, 1}, {2, 1}, {1, 2, 1}, {2, 0}, {1, 1}} {
 		stops := []bool{false, true, true}[:len(cs)]
@@ -755,6 +841,16 @@ func genC11(tier string) []Scenario {
 		for _, stop := range []bool{false, true} {
 			add(batchScn{name: fmt.Sprintf("cancel-rerun-after-failed-run n=2 c=%d stop=%v before-run", c, stop), n: 2, c: c, stop: stop, budget: 1, execMenu: okOrErrMenu, postMenu: postXOrErr, bound: 0, runs: 2, cancelFromRun: 1, cancel: cancelSpec{kind: 1, before: true}})
 			add(batchScn{name: fmt.Sprintf("cancel-rerun-after-failed-run n=2 c=%d stop=%v lazy", c, stop), n: 2, c: c, stop: stop, budget: 1, execMenu: okOrErrMenu, postMenu: postXOrErr, bound: 0, runs: 2, cancelFromRun: 1, cancel: cancelSpec{kind: 1, lazy: true}})
+		}
+	}
+	// the caller re-uses one slice object for its items: a cancelled run after successful ones must
+	// not show the earlier runs' results in the slots of items it never executed
+	for _, shape := range []int{shAny, shResults} {
+		for _, c := range []int{0, 2} {
+			for _, before := range []bool{true, false} {
+				add2 := func(sc batchScn) { sc.chkCancel = true; sc.postMenu = postX; out = append(out, sc.scenario()) }
+				add2(batchScn{name: fmt.Sprintf("cancel-same-slice-refilled %s n=3 c=%d runs=3 before=%v", shapeNames[shape], c, before), n: 3, c: c, shape: shape, sameSlice: true, budget: 1, execMenu: okMenu, bound: 0, runs: 3, cancelFromRun: 2, cancel: cancelSpec{kind: 1, before: before, lazy: !before}})
+			}
 		}
 	}
 	// three runs of one node object, the concurrency re-set between them (sequential / pooled in
